@@ -134,7 +134,110 @@ def unit_query(U):
         U.prove("C02.iter_by_parent_childs#p%d" % p.index, "yields [parent] + list(children(parent.id)) for each feature of the requested type", list(p.pc), z3.And(z3.BoolVal(ok), goal), rvars)
 
 
-UNITS = [("query", unit_query)] + IM.c02_units()
+def unit_parse_parents(U):
+    """text -> Parent list: both GFF3 spellings of a feature with several parents (`Parent=a,b` and `Parent=a;Parent=b`)
+    give the Parent list [a, b] under EVERY key=value dialect a file can have been given (whatever its field separator,
+    trailing semicolon and repeated-keys flag, which are fixed by OTHER lines of the file).  This is the link between the
+    file and the `f.attributes['Parent']` the import-step contract starts from."""
+    import gffutils.parser as P
+    from contracts import attrspec as A
+    ws = frozenset(" \t\n\r\x0b\x0c")
+    reserved = frozenset(";=,%&\"") | frozenset(chr(c) for c in range(33)) | {chr(127)}
+    for dname, D in A.dialects():
+        if not dname.startswith("k=v|"):
+            continue
+        for spelling in ("comma", "repeated"):
+            it = Interp()
+            A.install(it)
+            holes = [Val(z3.String(n), nonempty=True, excl=reserved, tag="value") for n in ("x", "a", "b")]
+
+            def run(ctx, D=D, spelling=spelling, holes=holes):
+                for h in holes:
+                    for c in h.light_constraints():
+                        ctx.assume(c)
+                x, a, b = holes
+                sep = D["field separator"]
+                if spelling == "comma":
+                    atoms = [Lit("ID="), x, Lit(sep + "Parent="), a, Lit(","), b]
+                else:
+                    atoms = [Lit("ID="), x, Lit(sep + "Parent="), a, Lit(sep + "Parent="), b]
+                if D["trailing semicolon"]:
+                    atoms.append(Lit(";"))
+                d = dict(D)
+                d["order"] = ["ID", "Parent"]
+                return it.call(P._split_keyvals, [SStr(atoms), d], {})
+            base = "C02.parse.parents[%s,%s]" % (dname, spelling)
+
+            def replay(m, D=D, spelling=spelling):
+                sep = D["field separator"]
+                bad = []
+                for (a, b) in (("m1", "m2"), ("t.1", "t-2"), ("p", "p2")):
+                    txt = "ID=x%sParent=%s" % (sep, (a + "," + b) if spelling == "comma" else (a + sep + "Parent=" + b)) + (";" if D["trailing semicolon"] else "")
+                    line = "c\t.\texon\t1\t2\t.\t+\t.\t" + txt
+                    got = list(F.feature_from_line(line, dialect=dict(D)).attributes.get("Parent", []))
+                    if got != [a, b]:
+                        bad.append({"attributes": txt, "dialect": {k: D[k] for k in ("field separator", "trailing semicolon", "repeated keys")}, "Parent parsed": got, "expected": [a, b]})
+                return {"inputs": {"dialect": dname, "spelling": spelling}, "observed": bad[:2], "violates": bool(bad)}
+            for p in U.explore(run, it):
+                if p.kind != "return":
+                    U.prove(base + ".noraise#p%d" % p.index, "parsing raises nothing (got %r)" % (p.value,), p.pc, z3.BoolVal(False), {}, replay=replay)
+                    continue
+                q, d2 = p.value
+                ok = A.same_items(q, [("ID", [holes[0]]), ("Parent", [holes[1], holes[2]])])
+                U.prove(base + ".values#p%d" % p.index, "the Parent list parsed is [a, b] (ids free of reserved characters), the ID list [x]", [], z3.BoolVal(bool(ok)), {}, replay=replay)
+
+
+def unit_bounded_text(U):
+    """Bounded: the same graphs as C02.bounded.dags but through GFF3 TEXT (create_db(..., from_string=True)), in the spellings
+    a file may mix: comma lists, repeated Parent keys, and comma-list parents in a file whose other lines repeat keys (so that
+    the file's dialect says 'repeated keys'), for every line order of the small graphs and checklines 10 / 1."""
+    import itertools as _it
+    fails, cases = [], 0
+    graphs = [(3, [(1, 0), (2, 0), (2, 1)]), (4, [(2, 0), (2, 1), (3, 2)]), (4, [(1, 0), (2, 0), (3, 1), (3, 2)]), (3, [(2, 0), (2, 1)])]
+    for n, edges in graphs:
+        perms = list(_it.permutations(range(n)))
+        if not U.thorough:
+            perms = perms[::3] + [perms[-1]]
+        for perm in perms:
+            for spelling, checklines in _it.product(("comma", "repeated", "mixed"), (10, 1)):
+                lines, feats = [], []
+                if spelling == "mixed":
+                    # two leading lines that repeat a key: the dialect chosen for the file has 'repeated keys'
+                    lines += ["c\t.\tregion\t1\t99\t.\t+\t.\tID=r%d;Dbxref=A:1;Dbxref=B:2;Dbxref=C:3" % i for i in (1, 2)]
+                for k in perm:
+                    ps = ["n%d" % p for (c, p) in edges if c == k] + (["nowhere"] if k == n - 1 else [])
+                    a = "ID=n%d" % k
+                    if ps:
+                        a += (";Parent=" + ",".join(ps)) if spelling in ("comma", "mixed") else "".join(";Parent=" + q for q in ps)
+                    lines.append("c\t.\tt%d\t%d\t%d\t.\t+\t.\t%s" % (k, k + 1, k + 5, a))
+                    att = {"ID": ["n%d" % k]}
+                    if ps:
+                        att["Parent"] = ps
+                    feats.append(F.Feature(seqid="c", featuretype="t%d" % k, start=k + 1, end=k + 5, attributes=att))
+                cases += 1
+                text = "\n".join(lines) + "\n"
+                try:
+                    db = gffutils.create_db(text, ":memory:", from_string=True, checklines=checklines)
+                    rel = {(r["parent"], r["child"], r["level"]) for r in db.execute("SELECT parent, child, level FROM relations")}
+                    exp = IM.expected_gff3_relations(feats)
+                    bad = None
+                    if rel != exp:
+                        bad = "relations %r" % sorted(rel)
+                    for x in ["n%d" % k for k in range(n)]:
+                        for lv in (1, 2, None):
+                            ch = sorted(f.id for f in db.children(x, level=lv))
+                            ech = sorted({c for (p_, c, l) in exp if p_ == x and (lv is None or l == lv) and c.startswith("n")})
+                            if ch != ech:
+                                bad = "children(%s, level=%r) = %r, expected %r" % (x, lv, ch, ech)
+                    if bad:
+                        fails.append({"case": {"text": text, "checklines": checklines}, "expected": sorted(exp), "observed": bad})
+                except Exception as e:
+                    fails.append({"case": {"text": text, "checklines": checklines}, "expected": "no exception", "observed": repr(e)})
+    U.bounded_result("C02.bounded.text", "GFF3 text in either spelling of several parents (and mixtures) gives the Parent graph, in every line order",
+                     "4 multi-parent graphs x line permutations x {comma list, repeated Parent keys, comma lists in a file whose dialect has repeated keys} x checklines {10, 1}", cases, fails)
+
+
+UNITS = [("query", unit_query)] + IM.c02_units() + [("parse.parents", unit_parse_parents), ("bounded.text", unit_bounded_text)]
 
 
 def replay_file(doc):
